@@ -38,7 +38,19 @@ import Driver.Util
   `multi` (every command acts on its own transaction only): output = the observations of the
   transactions in order, ` || `-separated (`open` for one whose commands were not all issued).
   A `run` op may end in `f=<form>` (the sender form; the model does not look at the sender).
+  Round 8: a block may be written `<checks>/<targets>/n` and a source of a multi op `<checks>~<blocks>~n`
+  (no `modify` directive: the empty modifier group; a fault naming such a scope is `bad-op`), a `run` op
+  may carry `nm=<g|s|gs>` (the global / source scope has none); a recipient `<id>:<block><d|m>` is
+  written by the client with an upper-case / mixed-case domain (the endpoint normalises it: the model
+  does not look at the spelling); `st=` lists what every accepted RCPT command is answered after
+  DATA, in command order.  `d=<i>,<q>,<r>` (last token of a `run` op; before the first `//` of a
+  `multi` op): how the three actions are written in the configuration of the checks - each a
+  directive, arguments joined by `+`, `_` = space, `~` = empty argument, `!` = no argument; every
+  directive goes through `parseAction`: one refused ⇒ output `load=refused`; an accepted directive
+  whose action is not its slot's ⇒ `bad-op`.
 `apply <raw> <act>` → the result of FailAction.Apply and what the runner does with it
+`act <directive>` → `refused`, or `ok q= r= ovr=<code>/<enhanced>/<text>|- eff=<c>,<s>,<r>,<b>`: the parsed
+  FailAction and what a check failing with it does at each of the four stages (one-check pipeline)
 -/
 namespace Driver.C06
 open MaddyVerif.CheckRunner Driver
@@ -105,12 +117,17 @@ def verdictsOf (ss : List Script) : Verdicts := fun c st =>
       | some p => p.2
       | none => .none
 
-def parseBlock (s : String) : Option Block :=
+/-- A block and whether it has NO modifiers (`/n`). -/
+def parseBlock (s : String) : Option (Block × Bool) :=
   match s.splitOn "/" with
   | [c, t] => do
     let c ← ids? c
     let t ← ids? t
-    pure ⟨c, t⟩
+    pure (⟨c, t⟩, false)
+  | [c, t, "n"] => do
+    let c ← ids? c
+    let t ← ids? t
+    pure (⟨c, t⟩, true)
   | _ => none
 
 def parseTgt (s : String) : Option Tgt :=
@@ -132,6 +149,8 @@ def parseRcpt (s : String) : Option (Nat × Nat) :=
   match s.splitOn ":" with
   | [i, b] => do
     let i ← i.toNat?
+    -- how the client spelled the domain (`d` upper case, `m` mixed case) is not an input of the model
+    let b := if b.endsWith "d" || b.endsWith "m" then (b.dropEnd 1).toString else b
     let b ← b.toNat?
     pure (i, b)
   | _ => none
@@ -188,7 +207,8 @@ def showObs (m : Mode) (cfg : Cfg) (nChecks : Nat) (ob : Obs) : String :=
       | some .dmarc => "dmarc"
       | some .modifier => "mod"
       | none => if m == Mode.lmtp || b.results.all (fun x => x.2.2) then "ok" else "tgt"
-  let acc := sortNat (dedupNat ((ob.rcpts.filter (fun x => !x.2)).map (fun x => x.1)))
+  -- every accepted RCPT command, in command order
+  let acc := (ob.rcpts.filter (fun x => !x.2)).map (fun x => x.1)
   let dl := delivered m ob
   let stS := ",".intercalate (acc.map (fun r => s!"{r}:" ++ (if dl.contains r then "o" else "f")))
   let ho := (handedOver m ob).foldr insTgt []
@@ -240,16 +260,26 @@ def parseMF (tok : String) : Option MFaults :=
     | _ => none
   | _ => none
 
-def parseCfg (dm g s blocks scripts delays rcpts : String) (ts : List Tgt) (q0 : Bool) (mf : MFaults := MFaults.none) :
+def parseCfg (dm g s blocks scripts delays rcpts : String) (ts : List Tgt) (q0 : Bool) (mf : MFaults := MFaults.none)
+    (nmG nmS : Bool := false) :
     Option (Cfg × Nat × List (Nat × Nat) × Ord × List Script) := do
   let dm ← dmarc? dm
   let g ← ids? g
   let s ← ids? s
-  let bs ← (blocks.splitOn ";").mapM parseBlock
+  let bsn ← (blocks.splitOn ";").mapM parseBlock
+  let bs := bsn.map (fun p => p.1)
   let rs ← (rcpts.splitOn ",").mapM parseRcpt
   let ss ← (scripts.splitOn ";").mapM parseScript
   let ds ← (delays.splitOn ";").mapM parseDelay
   if ds.length != ss.length then none else
+  -- a modifier group that does not exist cannot fail
+  let noMod (b : Nat) : Bool := match bsn[b]? with
+    | some p => p.2
+    | none => false
+  if nmG && (mf.senderG || mf.bodyG || rs.any (fun p => mf.rcptG p.1)) then none else
+  if nmS && (mf.senderS || mf.bodyS || rs.any (fun p => mf.rcptS p.1)) then none else
+  if rs.any (fun p => mf.rcptB p.1 && noMod p.2) then none else
+  if (List.range bsn.length).any (fun b => mf.bodyB b && noMod b) then none else
   let cfg : Cfg := {
     v := verdictsOf ss
     global := g
@@ -299,7 +329,7 @@ def showNest (m : Mode) (cfgO : Cfg) (nO : Nat) (ordO : Ord) (rsO : List Rcpt) (
       | some .dmarc => "dmarc"
       | some .modifier => "mod"
       | none => if m == Mode.smtp && innerRan && !innerAccepts then "tgt" else "ok"
-  let acc := sortNat (dedupNat accO)
+  let acc := accO
   let dlI := delivered m obI
   let served (r : Rcpt) : Bool :=
     match m with
@@ -332,10 +362,11 @@ def splitTx : List String → List (List String)
     | [] => [[t]]
     | g :: gs => if t == "//" then [] :: g :: gs else (t :: g) :: gs
 
-/-- `<checks>~<blocks>` -/
+/-- `<checks>~<blocks>[~n]` (`~n`: the source block has no modifiers - nothing the model looks at) -/
 def parseSource (s : String) : Option (String × String) :=
   match s.splitOn "~" with
   | [c, b] => some (c, b)
+  | [c, b, "n"] => some (c, b)
   | _ => none
 
 /-- `<source index><form>[Q]` -/
@@ -371,23 +402,90 @@ def showTx (p : TxIn × Nat) (st : TxSt) : String :=
 def showEff : Eff → String
   | .none => "none" | .quar => "quar" | .rej => "rej"
 
+def decodeArg (s : String) : Option String :=
+  if s == "~" then some "" else if s == "" then none else some (s.replace "_" " ")
+
+/-- One directive: arguments joined by `+`; `!` = no argument at all. -/
+def decodeDir (s : String) : Option (List String) :=
+  if s == "!" then some [] else (s.splitOn "+").mapM decodeArg
+
+/-- The `d=` token: `some true` = the configuration loads (every directive accepted, each meaning
+the action of its slot), `some false` = refused at load, `none` = ill-formed. -/
+def parseDirs (tok : String) : Option Bool :=
+  if !tok.startsWith "d=" then none else
+  match (tok.drop 2).toString.splitOn "," with
+  | [a, b, c] => do
+    let a ← decodeDir a
+    let b ← decodeDir b
+    let c ← decodeDir c
+    let ps := [(parseAction a, Act.ignore), (parseAction b, Act.quarantine), (parseAction c, Act.reject)]
+    -- an accepted directive sits in the slot of its action
+    if ps.any (fun p => match p.1 with
+      | some fa => fa.act != p.2
+      | none => false) then none else
+    pure (ps.all (fun p => p.1.isSome))
+  | _ => none
+
+/-- The trailing tokens of a `run` op: `[Q] [m=…] [f=…] [nm=…] [d=…]`. -/
+structure RunFlags where
+  q0 : Bool
+  mf : MFaults
+  nmG : Bool
+  nmS : Bool
+  loads : Bool
+
+def takeFlags (fl : List String) : Option RunFlags := do
+  let (q0, fl) := match fl with
+    | "Q" :: r => (true, r)
+    | _ => (false, fl)
+  let (mf, fl) ← match fl with
+    | x :: r => if x.startsWith "m=" then (parseMF x).map (fun f => (f, r)) else some (MFaults.none, fl)
+    | [] => some (MFaults.none, fl)
+  let fl ← match fl with
+    | x :: r => if x.startsWith "f=" then
+        (if ["f=n", "f=z", "f=i", "f=q", "f=u"].contains x then some r else none) else some fl
+    | [] => some fl
+  let (nm, fl) ← match fl with
+    | x :: r => if x.startsWith "nm=" then
+        (if ["nm=g", "nm=s", "nm=gs"].contains x then some ((x.drop 3).toString, r) else none) else some ("", fl)
+    | [] => some ("", fl)
+  let (loads, fl) ← match fl with
+    | x :: r => if x.startsWith "d=" then (parseDirs x).map (fun l => (l, r)) else some (true, fl)
+    | [] => some (true, fl)
+  if !fl.isEmpty then none else
+  pure ⟨q0, mf, nm.contains 'g', nm.contains 's', loads⟩
+
+/-- What a check failing with the parsed action does at stage number `st` (0 connection, 1 sender,
+2 recipient, 3 body): the model run on a one-check pipeline. -/
+def actEff (fa : FailAction) (st : Nat) : String :=
+  let stage : Stage := match st with
+    | 0 => .conn | 1 => .sender | 2 => .rcpt 1 | _ => .body
+  let cfg : Cfg := {
+    v := fun c s => if c == 0 && s == stage then (fa.apply ⟨true, false, false⟩).eff else .none
+    global := [0]
+    source := []
+    block := fun _ => ⟨[], [0]⟩
+    route := fun _ => 0
+    tgt := fun _ => ⟨true, false⟩
+    dmarc := .off
+    q0 := false
+    mf := MFaults.none }
+  let ob := run (fun _ l => l) cfg (if st % 2 == 0 then Mode.smtp else Mode.lmtp) [1]
+  let chk := match ob.body with
+    | some b => b.refused == some .check
+    | none => false
+  if ob.startRefused || ob.rcpts.any (fun x => x.2) || chk then "rej"
+  else if ob.final.metaQ then "quar" else "none"
+
 def handle : List String → String
   | "run" :: mode :: dm :: g :: s :: blocks :: tgts :: rcpts :: scripts :: delays :: flag =>
     let r : Option String := do
       let m ← if mode == "smtp" then some Mode.smtp else if mode == "lmtp" then some Mode.lmtp else none
-      -- the sender form (`f=…`, last token) is not an input of the model
-      let flag ← match flag.getLast? with
-        | some x => if x.startsWith "f=" then
-            (if ["f=n", "f=z", "f=i", "f=q", "f=u"].contains x then some flag.dropLast else none) else some flag
-        | none => some flag
-      let (q0, mf) ← match flag with
-        | [] => some (false, MFaults.none)
-        | ["Q"] => some (true, MFaults.none)
-        | ["Q", x] => (parseMF x).map (fun f => (true, f))
-        | [x] => (parseMF x).map (fun f => (false, f))
-        | _ => none
+      -- the sender form (`f=…`) is not an input of the model
+      let fl ← takeFlags flag
       let ts ← (tgts.splitOn ",").mapM parseTgt
-      let (cfg, n, rs, ord, _) ← parseCfg dm g s blocks scripts delays rcpts ts q0 mf
+      let (cfg, n, rs, ord, _) ← parseCfg dm g s blocks scripts delays rcpts ts fl.q0 fl.mf fl.nmG fl.nmS
+      if !fl.loads then pure "load=refused" else
       pure (showObs m cfg n (run ord cfg m (rs.map (fun p => p.1))))
     r.getD "bad-op"
   | ["nest", mode, dm, g, s, blocks, tgts, rcpts, scripts, delays, flag, "//",
@@ -404,6 +502,13 @@ def handle : List String → String
         | some p => p.2
         | none => false
       pure (showNest m cfgO nO ordO (rsO.map (fun p => p.1)) isNest cfgI nI ordI)
+    r.getD "bad-op"
+  | "multi" :: dm :: g :: tgts :: sources :: sched :: d :: "//" :: rest =>
+    let r : Option String := do
+      let loads ← parseDirs d
+      let out := handle ("multi" :: dm :: g :: tgts :: sources :: sched :: "//" :: rest)
+      if out == "bad-op" then none else
+      pure (if loads then out else "load=refused")
     r.getD "bad-op"
   | "multi" :: dm :: g :: tgts :: sources :: sched :: "//" :: rest =>
     let r : Option String := do
@@ -425,6 +530,18 @@ def handle : List String → String
       | some true => "o"
       | some false => "r"
     s!"rcpt={if r.1 then "o" else "r"} body={bodyS} relayed={b01 r.2.2}"
+  | ["act", d] =>
+    match decodeDir d with
+    | none => "bad-op"
+    | some args =>
+      match parseAction args with
+      | none => "refused"
+      | some fa =>
+        let ovr := match fa.ovr with
+          | none => "-"
+          | some o => s!"{o.code}/{o.enh.1}.{o.enh.2.1}.{o.enh.2.2}/" ++ o.msg.replace " " "_"
+        s!"ok q={b01 fa.quarantine} r={b01 fa.reject} ovr={ovr} eff=" ++
+          ",".intercalate ((List.range 4).map (actEff fa))
   | ["apply", raw, act] =>
     match raw.toList, act.toList with
     | [a], [b] =>
